@@ -43,9 +43,10 @@ type Case struct {
 
 var checker = &vk.Checker[Case]{
 	ID: "C18",
-	Rule: "sections (off in {0,1,7,100,2^32+5}, n in {0,1,2,8,64}) or AtToWriter(w, off), also stacked on an inner SectionWriter (nested), over a recording in-memory WriterAt with a fault plan (none; capacity C: bytes at absolute offset >= C refused after writing those below with (m<len, errFull); one-shot: the first write covering a trip offset stores the bytes before it and fails with errIO); " +
+	Rule: "sections (off in {0,1,7,100,2^32+5,2^62}, n in {0,1,2,8,64}) or AtToWriter(w, off), also stacked on an inner SectionWriter (nested), over a recording in-memory WriterAt with a fault plan (none; capacity C: bytes at absolute offset >= C refused after writing those below with (m<len, errFull); one-shot: the first write covering a trip offset stores the bytes before it and fails with errIO); " +
 		"histories of <= 40 (thorough <= 200) steps: Write(len 0, 1, .., exactly to the limit, crossing it), WriteAt(buf, o in [-2, n+3] or at the top of int64), Seek(offset in [-n-3, n+3] or 2^33, whence in {0,1,2,3,-1}), Size; each buffer carries a per-step byte pattern; fixed histories with buffers of several MiB. " +
 		"Reference model: base/cursor/limit + expected memory image + expected (n, error class) per step; after EVERY step: return values, every byte the recorder received lies inside [off, off+n), the memory image (position and content of every byte that landed) == model (the number of underlying calls is not asserted), cursor == model (observed via Seek(0, SeekCurrent)), Size()==n. " +
+		"Latitude the statement leaves (all accepted): an EMPTY request inside the writer's own section need not reach the underlying writer (its error may or may not surface); a request that is truncated AND fails may return either error; a Seek beyond the section end may be refused if the cursor then stays; the error value for a negative WriteAt offset (count 0); AtToWriter offsets beyond 2^61. " +
 		"Non-trivial: >= 2 writes with a Seek or a truncated/failed write before a later write. Distinct by hash of the history.",
 	Check:    check,
 	Classify: classify,
